@@ -15,7 +15,8 @@ META = {
         "helpers. R4 (formats): dates are printed with %d/%m/%Y, tax years as {}/{:02} of (start+1) % 100, GBP through "
         "one helper called with '£' and 2 decimals, negatives as -£. R5 (exact quantities): in the derived serializers of the report "
         "model no quantity / amount / ratio field goes through a serialize_with (rounding) helper. R6: a field of a front-end structure (MCP explain) "
-        "that is named like a report-model field is filled from that field. Does not analyse the Typst template's own arithmetic "
+        "that is named like a report-model field is filled from that field. R7: presentation code lists tax_years / disposals / matches without a "
+        "dropping iterator stage. Does not analyse the Typst template's own arithmetic "
         "(no Typst analyser available) and does not compare rendered outputs."),
     "trusted_base": ["rust_decimal: round_dp is MidpointNearestEven; round_dp_with_strategy honours the strategy",
                      "core::fmt template encoding", "the Typst template (report.typ) is outside the analysis"],
@@ -263,10 +264,69 @@ def same_named_figures(F, rep):
         rep.unresolved("R6", "front-end-structs", f"only {n} front-end fields named like report-model fields found (MCP explain structures expected)")
 
 
+REPORT_LISTS = ("tax_years", "disposals", "matches")
+DROPPING = ("filter", "filter_map", "skip", "take", "take_while", "skip_while", "step_by")
+LISTING = ("collect", "next", "for_each", "extend", "try_for_each", "fold", "try_fold")
+
+
+def same_lists(F, rep):
+    """R7 (the front-ends list the same tax years, disposals and legs): a presentation crate walks `tax_years`, `disposals` and
+    `matches` of the report as they are — a stage that drops elements (filter, skip, take, …) in a chain that is then listed
+    (collected, looped over) makes one front-end omit a year or a leg that the JSON report, which serialises the lists
+    themselves, shows. Searching or counting chains (any / find / count / sum) are not listings, and neither is a filter whose
+    predicate captures a value from its environment (a look-up by the caller's key)."""
+    n = 0
+    bad = []
+    for b in F.bodies.values():
+        if b.crate not in PRESENTATION_CRATES or not P.user_written(F, b):
+            continue
+        tb = None
+        for i, t in b.calls():
+            m = parse_callee(t["callee"])[2]
+            if m not in LISTING or not t["args"]:
+                continue
+            tb = tb or Terms(F, b, inline_depth=0)
+            recv = tb.operand(t["args"][0])
+            walked = None
+            dropped = None
+            for x in subterms(recv):
+                if isinstance(x, tuple) and len(x) == 3 and x[0] == "field" and x[2] in REPORT_LISTS:
+                    walked = x[2]
+            if walked is None:
+                continue
+            n += 1
+            for x in subterms(recv):
+                if isinstance(x, tuple) and x and x[0] == "call" and parse_callee(x[1])[2] in DROPPING and x[2] and \
+                        any(isinstance(y, tuple) and len(y) == 3 and y[0] == "field" and y[2] in REPORT_LISTS for y in subterms(x[2][0])):
+                    # a predicate that captures something from its environment (the ticker or date a caller asked for) is a
+                    # query, not a presentation of the list; one that looks at the element alone decides what the reader sees
+                    clo = x[2][1] if len(x[2]) > 1 else None
+                    if isinstance(clo, tuple) and clo and clo[0] == "closure" and len(clo) > 2 and clo[2]:
+                        continue
+                    dropped = parse_callee(x[1])[2]
+            if dropped:
+                bad.append((b, t, walked, dropped))
+    seen = set()
+    for b, t, walked, dropped in bad:
+        k = (b.short, walked)
+        if k in seen:
+            continue
+        seen.add(k)
+        rep.ob("R7", f"{b.short}:{walked}:listed-in-full", False,
+               f"{b.short} lists `{walked}` through `.{dropped}(..)`: entries the JSON report shows are missing from this front-end",
+               b.loc(t["sp"]), key=f"R7:{b.short}:{walked}:dropping-stage")
+    rep.ob("R7", "report-lists:listed-in-full", not bad, f"{n} walks over tax_years / disposals / matches in presentation code, none through a dropping stage"
+           if not bad else f"{len(bad)} listings of report lists drop elements", "", key="R7:report-lists")
+    rep.count("report_list_walks", n)
+    if n < 4:
+        rep.unresolved("R7", "report-list-walks", f"only {n} walks over the report's lists found in presentation code")
+
+
 def run(ctx, rep):
     F = ctx.F
     exact_quantities(F, rep)
     same_named_figures(F, rep)
+    same_lists(F, rep)
     n = rounding(F, rep)
     if n < 3:
         rep.unresolved("R1", "rounding-sites", f"only {n} rounding calls found in presentation code")
